@@ -21,10 +21,10 @@ import (
 
 type mboxClose struct {
 	Seed    uint64 `json:"seed"`
-	Who     string `json:"who"`     // client | server | both
-	Calls   int    `json:"calls"`   // Close calls per closing side (concurrent)
-	AtMs    int    `json:"at_ms"`   // when, after the pair is up
-	Writes  int    `json:"writes"`  // messages in flight in each direction
+	Who     string `json:"who"`    // client | server | both
+	Calls   int    `json:"calls"`  // Close calls per closing side (concurrent)
+	AtMs    int    `json:"at_ms"`  // when, after the pair is up
+	Writes  int    `json:"writes"` // messages in flight in each direction
 	LatMs   int    `json:"lat_ms"`
 	DropAll bool   `json:"drop_all"` // the relay swallows everything from AtMs-1 on (FIN cannot arrive)
 }
@@ -234,7 +234,7 @@ func TestC12MailboxClose(t *testing.T) {
 
 type mboxKeepalive struct {
 	Seed     uint64 `json:"seed"`
-	IdleMs   []int  `json:"idle_ms"` // idle periods on a healthy relay, each followed by an echo
+	IdleMs   []int  `json:"idle_ms"`    // idle periods on a healthy relay, each followed by an echo
 	DeadAtMs int    `json:"dead_at_ms"` // then the relay swallows everything
 	LatMs    int    `json:"lat_ms"`
 	Pending  int    `json:"pending"` // writes issued right before the relay goes silent
